@@ -583,6 +583,8 @@ func (f *fnState) specCall(x *spec.Call, c *specCtx) SV {
 		return intSV(fmt.Sprintf("(select %s (l-ref (s-loc %s)))", f.get(c.env, "G$hw", "(Array Int Int)").T, arg(0).T))
 	case "alloc":
 		return intSV(f.get(c.env, "G$alloc", sInt).T)
+	case "lastalloc":
+		return intSV(f.get(c.env, "G$lastalloc", sInt).T)
 	case "written":
 		return SV{Sort: sTr, T: fmt.Sprintf("(select %s %s)", f.get(c.env, "G$written", "(Array Int Tr)").T, f.streamID(arg(0)))}
 	case "taken":
